@@ -10,7 +10,10 @@ use nalgebra::Translation3;
 use rayon::prelude::{IntoParallelRefIterator, ParallelIterator};
 use std::fmt;
 use std::sync::Arc;
+#[cfg(not(rs_opw_kinematics_verif))]
 use std::sync::atomic::{AtomicBool, Ordering};
+#[cfg(rs_opw_kinematics_verif)]
+use shuttle::sync::atomic::{AtomicBool, Ordering};
 use std::time::Instant;
 
 /// Reasonable default transition costs. Rotation of smaller joints is more tolerable.
